@@ -246,23 +246,28 @@ def run(repo, chk):
     chk.ob("R13.4", "prologue:interactions-before-receiver-parameter", not (before and skips_absent), "ptera/transform.py (visit_FunctionDef) + ptera/selector.py (check_captures)",
            f"the generated prologue reports {sorted(before)} before the parameters, and check_captures lets a constraint pass while its variable (the receiver) is not captured yet: "
            "`obj.meth > G` (G a global read by the method) and `obj.meth > #enter` fire for every instance and carry no receiver")
-    # R13.2
-    t = norm(rs.node)
-    sel_defs = [n for n in walk_local(rs.node) if isinstance(n, ast.Assign) and any(is_name(x, "selfname") for x in n.targets)]
-    ok = False
-    if len(sel_defs) == 1:
-        v = sel_defs[0].value
-        txt = norm(v)
-        if isinstance(v, ast.Subscript) and isinstance(v.value, ast.Name):      # argnames[0] with argnames = getfullargspec(real_fn).args
-            src = [n.value for n in walk_local(rs.node) if isinstance(n, ast.Assign) and any(is_name(x, v.value.id) for x in n.targets)]
-            if len(src) == 1:
-                txt = txt.replace(v.value.id, norm(src[0]), 1)
-        ok = txt == "inspect.getfullargspec(real_fn).args[0]"
-    chk.ob("R13.2", "selector._resolve:receiver-name-from-signature", ok, rs.where,
-           "the constrained parameter is the first positional parameter of the resolved function (whatever it is called)")
+    # the receiver matcher is the LAST condition of the call (appended by _resolve): it is only applied if check_captures judges every condition
+    from .c12 import check_captures_shape
+    probs = check_captures_shape(cc.node)
+    chk.ob("R13.4", "selector.Selector.check_captures:universal", not probs, cc.where,
+           "check_captures judges every condition of the selector (the receiver matcher that _resolve appends comes after the user's own conditions) and every "
+           "captured value, and rejects on the first mismatch" + ("; ".join([""] + probs)))
+    # R13.2  (read through temporaries: what matters is where the name comes from, not what the locals are called)
+    from ..astq import expand as _exp
+    want_ = "inspect.getfullargspec(_dig(fn.__func__)).args[0]"
+    elname = [d for d in walk_local(rs.node) if isinstance(d, ast.Assign) and len(d.targets) == 1 and isinstance(d.targets[0], ast.Name) and norm(d.value).endswith(".name")]
+    fnv = elname[0].targets[0].id if len(elname) == 1 else "fn"
+    want_ = want_.replace("fn.__func__", f"{fnv}.__func__")
+
+    def _through(e):
+        t_ = _exp(e, rs.node) if e is not None else ""
+        return t_.replace(f"{norm(elname[0].value)}.__func__", f"{fnv}.__func__") if len(elname) == 1 else t_
+    names_ = [_through(kwarg(c, "name")) for c, cls, field, raw, ident in binds]
+    chk.ob("R13.2", "selector._resolve:receiver-name-from-signature", bool(binds) and all(t_ == want_ for t_ in names_), rs.where,
+           f"the constrained parameter is the first positional parameter of the resolved function (whatever it is called): {names_}")
     for c, cls, field, raw, ident in binds:
         nm, cp = kwarg(c, "name"), kwarg(c, "capture")
-        chk.ob("R13.2", f"selector._resolve:constraint-on-{field}:named-by-signature", nm is not None and cp is not None and norm(nm) == "selfname" == norm(cp), rs.where,
+        chk.ob("R13.2", f"selector._resolve:constraint-on-{field}:named-by-signature", nm is not None and cp is not None and _through(nm) == want_ == _through(cp), rs.where,
                "the receiver element is named and captured under the signature's parameter name (the receiver is reported in the event)")
     from .shared import call_aggregates
     hv, ok_hv = call_aggregates(repo, "hasval")
@@ -274,7 +279,7 @@ def run(repo, chk):
            "the list of value constraints of a selector (Call.all_values, which holds the receiver matcher) is built in a fresh list, never by extending the cached list of one of its (interned, shared) parts: "
            "a second object-bound selector does not inherit the first one's receiver" + (f" -- {muts}" if muts else ""))
     # R13.3
-    mt = [n for n in walk_local(rs.node) if isinstance(n, ast.If) and norm(n.test) == "isinstance(fn, types.MethodType)"]
+    mt = [n for n in walk_local(rs.node) if isinstance(n, ast.If) and norm(n.test) in ("isinstance(fn, types.MethodType)", "not isinstance(fn, types.MethodType)")]
     frs = facts_of(rs)
     is_m = "isinstance(fn, types.MethodType)"
     ok = len(mt) == 1 and (frs.has("el = el.clone(name=real_fn)", when=[is_m]) and frs.has("real_fn = _dig(fn.__func__)", when=[is_m]) or frs.has("el = el.clone(name=_dig(fn.__func__))", when=[is_m]))
@@ -295,8 +300,10 @@ def run(repo, chk):
            f"the names of a selector (`obj.method > v`, `Cls.method > v`) are looked up as Python would in the frame where the selector is written: "
            f"its locals, then its globals, then the builtins -- a local that shadows a global of the same name designates the local object (found {shape})")
     chk.ob("R13.3", "selector._resolve:method-resolved-to-function", ok, rs.where, "a bound method is resolved to its underlying (unwrapped) function")
-    recv_in_else = mt and any(is_receiver_expr(n, set()) for s in mt[0].orelse for n in ast.walk(s))
-    recv_in_body = mt and any(is_receiver_expr(n, set()) for s in mt[0].body for n in ast.walk(s))
+    neg_ = bool(mt) and norm(mt[0].test).startswith("not ")
+    pos_br, neg_br = ((mt[0].orelse, mt[0].body) if neg_ else (mt[0].body, mt[0].orelse)) if mt else ([], [])
+    recv_in_else = mt and any(is_receiver_expr(n, set()) for s in neg_br for n in ast.walk(s))
+    recv_in_body = mt and any(is_receiver_expr(n, set()) for s in pos_br for n in ast.walk(s))
     chk.ob("R13.3", "selector._resolve:constraint-only-for-bound-methods", bool(mt) and recv_in_body and not recv_in_else, rs.where,
            "only selectors written through an object get the receiver constraint (Cls.meth observes every instance)")
     ok = mt and (frs.has("el = el.clone(name=unwrapped)", when=[f"not {is_m}"]) and frs.has("unwrapped = _dig(fn)", when=[f"not {is_m}"]) or frs.has("el = el.clone(name=_dig(fn))", when=[f"not {is_m}"]))
